@@ -387,7 +387,15 @@ pub fn eval(case: &J) -> Outcome {
                 if tail[..end].split(',').any(|a| { let a = a.trim(); a == "e" || a.ends_with(".e") }) { return true; } rest = &tail[end.min(tail.len())..]; } false };
             let extremum_of_nullable = (has_nullable_arg("least(") || has_nullable_arg("greatest(")) && row[ci] != Cell::Null;
             // a CASE whose condition is NULL takes the ELSE branch in SQL; the library types the CASE as NULL in that case
-            let case_on_nullable = ["CASE WHEN e ", "CASE WHEN t1.e ", " WHEN e ", " WHEN t1.e "].iter().any(|p| sql.contains(p)) && row[ci] != Cell::Null;
+            // a CASE one of whose conditions mentions the nullable column e, anywhere in the condition
+            let when_mentions_nullable = { let mut rest = sql; let mut hit = false; while let Some(i) = rest.find("WHEN ") { let tail = &rest[i + 5..]; let end = tail.find(" THEN").unwrap_or(tail.len());
+                let cond = &tail[..end]; let b = cond.as_bytes();
+                // (a condition that is itself an IS [NOT] NULL / IS TRUE / IS FALSE test is never NULL: not this defect)
+                if [" IS NULL", " IS NOT NULL", " IS TRUE", " IS FALSE"].iter().any(|sfx| cond.trim_end().ends_with(sfx)) { rest = &tail[end..]; continue; }
+                for (k, _) in cond.match_indices('e') { let before = if k == 0 { b' ' } else { b[k - 1] }; let after = if k + 1 < b.len() { b[k + 1] } else { b' ' };
+                    if !(after.is_ascii_alphanumeric() || after == b'_' || after == b'\'') && (before == b'.' || !(before.is_ascii_alphanumeric() || before == b'_' || before == b'\'')) { hit = true; } }
+                rest = &tail[end..]; } hit };
+            let case_on_nullable = when_mentions_nullable && row[ci] != Cell::Null;
             let cls = if empty_agg { "null-aggregate-over-empty-input".to_string() } else if extremum_of_nullable { "value/least-greatest-of-nullable".to_string() } else if case_on_nullable { "value/case-condition-on-nullable".to_string() } else if (sql.contains("sin(") || sql.contains("cos(") || sql.contains("tan(")) && matches!(row[ci], Cell::Real(_)) && f.data_type().to_string().contains("float{") { "value/sin-cos-of-wide-range".to_string() } else if row[ci] == Cell::Null { format!("null/{cls}") } else if sql.contains("FULL JOIN") || sql.contains("LEFT JOIN") || sql.contains("RIGHT JOIN") { "value/outer-join".to_string() } else { format!("value/{cls}") };
             if !ok { out.fail(&format!("C07/sqlx/cell-outside-type/{cls}"), format!("{sql}: column `{}` is declared {} but execution produced {} (row {:?})", f.name(), f.data_type(), row[ci], row));
                 // a *bare column* of the inputs whose returned value lies outside its type under a WHERE or an ON clause: the narrowing dropped a row
